@@ -319,3 +319,17 @@ Section Table.
     reflexivity.
   Qed.
 End Table.
+
+(* a step never touches the source rows (nested tables) *)
+Theorem nested_step_leaves_source t d o d' : napply t d o = Some d' -> nsrc d' = nsrc d.
+Proof.
+  destruct o as [ks|k|c o rhs|c o rhs|s|i]; cbn [napply]; intros H.
+  - destruct (mode d); try discriminate;
+      match type of H with context [omap_index ?a ?b] => destruct (omap_index a b) end; try discriminate; now injection H as <-.
+  - destruct (mode d); try discriminate;
+      match type of H with context [index_of ?a ?b] => destruct (index_of a b) end; try discriminate; now injection H as <-.
+  - destruct (mk_filt (ohd t) c o rhs); [|discriminate]. now injection H as <-.
+  - destruct (mk_filt (ihd t) c o rhs); [|discriminate]. now injection H as <-.
+  - now injection H as <-.
+  - now injection H as <-.
+Qed.
